@@ -416,6 +416,136 @@ pub fn deep_sessions(tier: &str) -> Acc {
     })
 }
 
+/// The command-line grammar G: every `go` parameter with every kind of value (missing, not a number, negative,
+/// zero, one, above u64, fractional), combinations, unknown tokens, every shape of the `position` command, and
+/// the remaining commands with leading / trailing junk.
+pub fn grammar_lines() -> Vec<String> {
+    let mut g: Vec<String> = vec![];
+    let vals = ["", "abc", "-1", "0", "1", "18446744073709551616", "3.5"];
+    for p in ["depth", "movetime", "wtime", "btime", "winc", "binc"] {
+        for v in vals {
+            g.push(format!("go {} {}", p, v).trim_end().to_string());
+        }
+    }
+    for l in [
+        "go", "go infinite", "go ponder", "go searchmoves a1a2", "go nodes 100", "go mate 1", "go depth 1 depth 2", "go depth 2 movetime 1", "go infinite depth 1", "go wtime 1000 btime 1000", "go wtime 1000 btime 1000 winc 0 binc 0",
+        "go wtime 0 btime 0 winc 0 binc 0", "go wtime 1 btime 1 winc 0 binc 0 movestogo 40", "go wtime x btime 1000 winc 0 binc 0", "go depth", "go depth 255", "go depth 256", "go movetime 0", "go xyz depth 1", "xyz go depth 1", "go go depth 1",
+        "position", "position startpos", "position startpos moves", "position startpos moves e2e4 e7e5", "position startpos moves e2e5", "position startpos moves e2e4 e2e4", "position startpos e2e4", "position moves e2e4", "position fen",
+        "position fen 8/8 w", "position fen k7/8/8/8/8/8/8/7K b - - 0 1", "position fen k7/8/8/8/8/8/8/7K b - - 0 1 moves a8a7", "position fen k7/8/8/8/8/8/8/7K b - - 0 1 moves a8a6", "position fen k7/8/8/8/8/8/8/7K b - -", "position fen k7/8/8/8/8/8/8/7K b - - moves a8b8 h1g1",
+        "position fen startpos", "position xyz", "position startpos fen k7/8/8/8/8/8/8/7K b - - 0 1", "xyz position startpos", "position startpos moves e2e4 xyz", "position startpos moves 0000",
+        "", " ", "\t", "uci", "isready", "isready isready", "xyz isready", "isready xyz", "ucinewgame", "ucinewgame ucinewgame", "stop", "stop stop", "wait", "show", "d", "show show", "foo", "foo bar baz", "quitx", "setoption name Hash value 16", "debug on", "register later", "ponderhit",
+    ] {
+        g.push(l.to_string());
+    }
+    g
+}
+
+fn first_known(line: &str) -> Option<&str> {
+    line.split_ascii_whitespace().find(|t| matches!(*t, "uci" | "ucinewgame" | "isready" | "position" | "go" | "show" | "d" | "stop" | "wait" | "quit"))
+}
+
+/// Sequential sessions (native speed, every `go` is followed by `stop`, so the transcript order is fixed):
+/// `position P0; X1; stop; isready; [X2; stop; isready;] show; go depth 1; stop; isready; quit` for all X over G.
+pub fn grammar_sessions(tier: &str) -> Acc {
+    let g = grammar_lines();
+    let mut words: Vec<Vec<String>> = g.iter().map(|x| vec![x.clone()]).collect();
+    let second: Vec<&String> = if tier == "quick" { g.iter().filter(|x| !x.starts_with("go w") && !x.starts_with("go b")).collect() } else { g.iter().collect() };
+    for a in &g {
+        for b in &second {
+            words.push(vec![a.clone(), (*b).clone()]);
+        }
+    }
+    par_items(&words, &|_, w, acc| {
+        let mut script = vec![format!("position fen {}", P0)];
+        let mut expected_ready = 0usize;
+        for x in w {
+            script.push(x.clone());
+            if first_known(x) == Some("isready") {
+                expected_ready += 1;
+            }
+            script.push("stop".into());
+            script.push("isready".into());
+            expected_ready += 1;
+        }
+        script.extend(["show", "go depth 1", "stop", "isready", "quit"].iter().map(|s| s.to_string()));
+        expected_ready += 1;
+        acc.states += 1;
+        acc.evaluations += 1;
+        let mut ctx = crate::verif_hooks::SeqCtx::new();
+        ctx.input = script.clone().into();
+        ctx.watchdog = 3_000;
+        let (r, ctx) = crate::verif_hooks::in_seq(ctx, || crate::bind::guarded(|| crate::uci::uci_talk()));
+        let t = ctx.transcript;
+        let key = format!("grammar|{}", w.join(" ; "));
+        let replay = json::obj(vec![("kind", json::s("c14-grammar")), ("word", json::strs(w))]);
+        let shown = |what: String| format!("{} [session: {}]", what, script.join(" / "));
+        match r {
+            Err(p) => return acc.violation(key, shown(format!("the session died: {}", p)), replay),
+            Ok(Err(e)) => return acc.violation(key, shown(format!("uci_talk returned an error: {}", e)), replay),
+            Ok(Ok(())) => {}
+        }
+        acc.transitions += script.len() as u64;
+        // segments between readyok lines
+        let mut segs: Vec<Vec<&String>> = vec![vec![]];
+        for l in &t {
+            if l == "readyok" {
+                segs.push(vec![]);
+            } else {
+                segs.last_mut().unwrap().push(l);
+            }
+        }
+        let ready = segs.len() - 1;
+        if ready != expected_ready {
+            return acc.violation(key, shown(format!("{} readyok lines for {} isready commands", ready, expected_ready)), replay);
+        }
+        // walk the segments in step with the words (an X that is itself `isready` splits its segment: merge by counting)
+        let mut si = 0usize;
+        for x in w {
+            let extra = if first_known(x) == Some("isready") { 1 } else { 0 };
+            let mut lines: Vec<&String> = vec![];
+            for _ in 0..=extra {
+                lines.extend(segs[si].iter().cloned());
+                si += 1;
+            }
+            let best = lines.iter().filter(|l| l.starts_with("bestmove")).count();
+            let errs = lines.iter().filter(|l| l.starts_with("error:")).count();
+            if first_known(x) == Some("go") {
+                if !((errs == 1 && best == 0) || (errs == 0 && best == 1)) {
+                    return acc.violation(key, shown(format!("`{}` followed by `stop`: {} error line(s) and {} bestmove line(s) (an accepted go gets exactly one bestmove, a refused one none)", x, errs, best)), replay);
+                }
+                acc.outcome(format!("go-line {}", if best == 1 { "answered" } else { "refused" }));
+            } else if best != 0 {
+                return acc.violation(key, shown(format!("`{}` is not a go command, yet {} bestmove line(s) appeared", x, best)), replay);
+            }
+        }
+        let last = &segs[si];
+        let best: Vec<&&String> = last.iter().filter(|l| l.starts_with("bestmove")).collect();
+        let fen = last.iter().find_map(|l| l.split('\n').find_map(|x| x.strip_prefix("Fen: ")));
+        match fen {
+            Some(f) => {
+                let legal = legal_in(f);
+                if best.len() != 1 {
+                    return acc.violation(key, shown(format!("a game is shown ({}) but the final `go depth 1` produced {} bestmove lines", f, best.len())), replay);
+                }
+                let mv = best[0].split_whitespace().nth(1).unwrap_or("");
+                if !legal.is_empty() && !legal.iter().any(|m| m == mv) {
+                    return acc.violation(key, shown(format!("`{}` is not legal in the shown position {}", best[0], f)), replay);
+                }
+                acc.outcome("final go answered in the shown position");
+            }
+            None => {
+                if !best.is_empty() || !last.iter().any(|l| l.starts_with("error:")) {
+                    return acc.violation(key, shown(format!("no game is shown, yet the final go produced {} bestmove line(s) / no error", best.len())), replay);
+                }
+                acc.outcome("no game: final go refused");
+            }
+        }
+        if acc.samples.len() < 2 && w.len() == 2 {
+            acc.sample(json::obj(vec![("session", json::strs(&script)), ("transcript_lines", json::i(t.len()))]));
+        }
+    })
+}
+
 pub fn run(tier: &str, seed: i64) -> Outcome {
     let nshards = 16;
     let args: Vec<Vec<String>> = (0..nshards).map(|i| vec!["C14".to_string(), tier.to_string(), seed.to_string(), "--worker".to_string(), format!("--shard={}/{}", i, nshards)]).collect();
@@ -429,6 +559,10 @@ pub fn run(tier: &str, seed: i64) -> Outcome {
     let deep = deep_sessions(tier);
     reports.push(SpaceReport { name: "deep sessions: `position tiny; go depth N; wait; isready; position; go depth 2; wait; isready; quit` for N up to 255 on 4 tiny roots, sequential schedule at native speed".into(), states: deep.states, exhaustive: true, note: format!("[{:.1}s]", t1.elapsed().as_secs_f64()) });
     acc.merge(deep);
+    let t2 = std::time::Instant::now();
+    let gram = grammar_sessions(tier);
+    reports.push(SpaceReport { name: format!("command grammar: all words of length <= 2 over {} command-line shapes (every go parameter x every kind of value, position shapes, junk), each followed by stop/isready, then show + go depth 1", grammar_lines().len()), states: gram.states, exhaustive: true, note: format!("[{:.1}s]", t2.elapsed().as_secs_f64()) });
+    acc.merge(gram);
     let mut out = Outcome::new(acc, reports, "every script runs the real uci_talk with its search and timer threads on OS threads serialised by a baton; schedule points are the hooked flag accesses, lock acquisitions, spawns, joins, stdin reads, node-entry polls and prints; the GUI is a pseudo-thread; iterative deviation bounding (preemption of a runnable thread or running a poller ahead of a runnable non-poller costs 1) explores every schedule within the bound; each execution is judged on its ordered transcript; a failing schedule is replayed twice and must reproduce the identical transcript");
     out.traces_validated = out.acc.evaluations;
     out.exhaustive = out.spaces[0].exhaustive;
@@ -443,6 +577,9 @@ pub fn run(tier: &str, seed: i64) -> Outcome {
 pub fn replay(j: &J, oracle_fn: &dyn Fn(&Exec) -> Option<String>) -> Result<Acc, String> {
     if j.get("kind").and_then(|x| x.as_str()) == Some("c14-deep") {
         return Ok(deep_sessions("quick"));
+    }
+    if j.get("kind").and_then(|x| x.as_str()) == Some("c14-grammar") {
+        return Ok(grammar_sessions("quick"));
     }
     let s = script_from_json(j.get("script").ok_or("script")?)?;
     let schedule: Vec<usize> = j.get("schedule").and_then(|x| x.as_arr()).ok_or("schedule")?.iter().map(|c| c.as_i().unwrap_or(0) as usize).collect();
